@@ -59,9 +59,10 @@
      clause "equal and present".
 
    PARTLY / NOT COVERED BY A THEOREM (left to the correspondence check)
-   * C13_disjoint_lawful assumes Uniq ck (elems (self w)).  That reachable maps
-     satisfy it under a lawful environment is part of C01/C05 (Dict), not
-     restated here.
+   * CLOSED: C13_disjoint_lawful assumes WF and Uniq ck (elems (self w)).  For
+     every REACHABLE state they are discharged in the AUDIT ADDENDUM at the end
+     of this file: C13_disjoint_lawful_reachable, C13_disjoint_lawful_after,
+     C13_disjoint_overlap_panics_reachable, C13_disjoint_reachable2.
    * CLOSED: the agreement with get_mut used to be only through the common value
      find_idx ...; C13_disjoint_agrees_with_get_mut now runs both in one
      statement (for get_disjoint_mut; the unchecked variant agrees through
@@ -228,5 +229,120 @@ Example C13_example_runs :
   match get_disjoint_mut E [QCls 7; QCls 9; QCls 7] (w_of m3) with
   | Panic w' => self w' = m3 /\ log w' = []
   | _ => False
+  end.
+Proof. vm_compute. repeat split; reflexivity. Qed.
+
+(* ======================================================================== *)
+(* AUDIT ADDENDUM (Proofs/MoreDict.v): QUANTIFIER "every reachable map state".
+   C13_disjoint_lawful takes WF and Uniq as hypotheses.  Below they are
+   DISCHARGED from reachability: wf is the state reached from Map::new() of ANY
+   capacity n by ANY history ops (Proofs/Dict.v: mfinal runs the 13 dictionary
+   operations, container-raised panics included; Proofs/Dict2.v: mfinal2
+   additionally interleaves drain, whole-container iteration,
+   entry(k).or_insert(v) and extend), under a lawful environment.
+     disjoint_post ck cq ks w r w' :=
+       stable w w' /\ r = map (fun q => find_idx ck (cq q) (Spec.elems (self w))) ks
+   i.e. the postcondition of C13_disjoint_lawful.                             *)
+(* ======================================================================== *)
+Require Import Proofs.Dict Proofs.Dict2 Proofs.MoreDict.
+
+Theorem C13_disjoint_lawful_reachable :
+  forall (K V Q T : Type) (E : env K V Q T) (debug : bool) (ck : K -> N) (cq : Q -> N),
+  Lawful E ck cq ->
+  forall (n : nat) (ops : list (@dop K V Q)) (s : T) (lg : list event) (ks : list Q),
+  NoDup (List.map cq ks) ->
+  exists wf : world K V T,
+    mfinal E debug ops {| cb := s; log := lg; self := new_map n |} = Some wf /\
+    wp (get_disjoint_mut E ks)
+       (fun (r : list (option nat)) (w' : world K V T) =>
+          stable wf w' /\
+          r = List.map (fun q : Q => find_idx ck (cq q) (Spec.elems (self wf))) ks)
+       (fun _ : world K V T => False) wf /\
+    wp (get_disjoint_unchecked_mut E ks)
+       (fun (r : list (option nat)) (w' : world K V T) =>
+          stable wf w' /\
+          r = List.map (fun q : Q => find_idx ck (cq q) (Spec.elems (self wf))) ks)
+       (fun _ : world K V T => False) wf.
+Proof. exact (@disjoint_lawful_reachable). Qed.
+Print Assumptions C13_disjoint_lawful_reachable.
+
+(* from ANY represented state (Abs: WF, unique keys), after any history *)
+Theorem C13_disjoint_lawful_after :
+  forall (K V Q T : Type) (E : env K V Q T) (debug : bool) (ck : K -> N) (cq : Q -> N),
+  Lawful E ck cq ->
+  forall (n : nat) (ops : list (@dop K V Q)) (w : world K V T) (d : @dict K V) (ks : list Q),
+  Abs ck (self w) d ->
+  cap (self w) = n ->
+  NoDup (List.map cq ks) ->
+  exists wf : world K V T,
+    mfinal E debug ops w = Some wf /\
+    wp (get_disjoint_mut E ks)
+       (fun (r : list (option nat)) (w' : world K V T) =>
+          stable wf w' /\
+          r = List.map (fun q : Q => find_idx ck (cq q) (Spec.elems (self wf))) ks)
+       (fun _ : world K V T => False) wf /\
+    wp (get_disjoint_unchecked_mut E ks)
+       (fun (r : list (option nat)) (w' : world K V T) =>
+          stable wf w' /\
+          r = List.map (fun q : Q => find_idx ck (cq q) (Spec.elems (self wf))) ks)
+       (fun _ : world K V T => False) wf.
+Proof. exact (@disjoint_lawful_after). Qed.
+Print Assumptions C13_disjoint_lawful_after.
+
+(* "If two requested keys are equal ... it panics", on every reachable state *)
+Theorem C13_disjoint_overlap_panics_reachable :
+  forall (K V Q T : Type) (E : env K V Q T) (debug : bool) (ck : K -> N) (cq : Q -> N),
+  Lawful E ck cq ->
+  forall (n : nat) (ops : list (@dop K V Q)) (s : T) (lg : list event) (ks : list Q),
+  ~ NoDup (List.map cq ks) ->
+  exists wf : world K V T,
+    mfinal E debug ops {| cb := s; log := lg; self := new_map n |} = Some wf /\
+    wp (get_disjoint_mut E ks)
+       (fun (_ : list (option nat)) (_ : world K V T) => False)
+       (fun w' : world K V T => stable wf w') wf.
+Proof. exact (@disjoint_overlap_panics_reachable). Qed.
+Print Assumptions C13_disjoint_overlap_panics_reachable.
+
+(* both clauses on every state reached by the EXTENDED histories (drain,
+   iteration, entry(k).or_insert(v), extend interleaved with the 13 operations) *)
+Theorem C13_disjoint_reachable2 :
+  forall (K V Q T : Type) (E : env K V Q T) (debug : bool) (ck : K -> N) (cq : Q -> N),
+  Lawful E ck cq ->
+  forall (n : nat) (ops : list (@dop2 K V Q)) (s : T) (lg : list event) (ks : list Q),
+  exists wf : world K V T,
+    mfinal2 E debug ops {| cb := s; log := lg; self := new_map n |} = Some wf /\
+    (NoDup (List.map cq ks) ->
+     wp (get_disjoint_mut E ks)
+        (fun (r : list (option nat)) (w' : world K V T) =>
+           stable wf w' /\
+           r = List.map (fun q : Q => find_idx ck (cq q) (Spec.elems (self wf))) ks)
+        (fun _ : world K V T => False) wf) /\
+    (~ NoDup (List.map cq ks) ->
+     wp (get_disjoint_mut E ks)
+        (fun (_ : list (option nat)) (_ : world K V T) => False)
+        (fun w' : world K V T => stable wf w') wf).
+Proof. exact (@disjoint_reachable2). Qed.
+Print Assumptions C13_disjoint_reachable2.
+
+(* a concrete reachable state (capacity 3: three inserts, a fourth overflows and
+   panics, class 5 removed so class 7 moves into slot 0) and a request longer than
+   the map with an absent key: position by position the get_mut slots *)
+Example C13_example_reachable :
+  let E := env_map {| sc_adv := false; sc_seed := 0; sc_fk := 0; sc_fa := 0 |} in
+  match mfinal E false
+          [DInsert (k_ 1 5) (v_ 2 7); DInsert (k_ 3 6) (v_ 4 8); DInsert (k_ 5 7) (v_ 6 9);
+           DInsert (k_ 7 8) (v_ 8 1); DRemove (QCls 5)]
+          {| cb := cs0; log := []; self := new_map 3 |} with
+  | Some wf =>
+      len (self wf) = 2 /\
+      match get_disjoint_mut E [QCls 6; QCls 5; QCls 7; QCls 8] wf with
+      | Ok r w' => r = [Some 1; None; Some 0; None] /\ self w' = self wf
+      | _ => False
+      end /\
+      match get_disjoint_mut E [QCls 6; QCls 7; QCls 6] wf with
+      | Panic w' => self w' = self wf
+      | _ => False
+      end
+  | None => False
   end.
 Proof. vm_compute. repeat split; reflexivity. Qed.
